@@ -14,7 +14,7 @@ LEVEL_NOTE = [
     "rule diagnostics: `new_error/new_warning` always attach Highlight.from_token (read in context.py); errors built elsewhere are checked dynamically by the oracle (every diagnostic has >= 1 highlight)",
 ]
 PARTIAL = [
-    "C08_position for *rule* diagnostics (line within the file, col >= 1) and C08_catalogue for rule-emitted codes are checked by the oracle on the implementation, not proved (they depend on the unported rules)",
+    "C08.lexer_diag_inside_file: the printed position of every LEXICAL diagnostic satisfies 1 <= line <= number of lines and column >= 1, for every source text (from C09.diag_positions); C08_position for *rule* diagnostics and C08_catalogue for rule-emitted codes are checked by the oracle on the implementation, not proved (they depend on the unported rules)",
     "BAD_LEXEME is built with a dynamic text that is not in the catalogue: known finding diag:BAD_LEXEME@lexer:text-not-in-catalogue",
 ]
 
